@@ -249,9 +249,12 @@ PROPS = {
     "C21": {
         "level": "proof",
         "kani": ["apollo-compiler/validation.rs"],
-        "technique": "Kani/CBMC, loop-free harness over all usize triples on the real recursion guard",
+        "verus": ["linecol"],
+        "technique": "Kani/CBMC, loop-free harness over all usize triples on the real recursion guard; Verus contracts on the extracted line / column lookup (unbounded)",
         "explanation": "KERNEL ONLY: the recursion guard every recursive validator uses: DepthGuard::increment errs iff value+1 > limit, tracks the high-water mark, "
-                       "and dropping the guard restores the depth (all usize values).",
+                       "and dropping the guard restores the depth (all usize values). And the position lookup behind every rendered or serialized diagnostic (unit linecol, shared with C11): "
+                       "SourceFile::get_line_column / get_line_column_range and SourceSpan::line_column(_range) index the source bytes within bounds and never overflow, for every text and every offset "
+                       "(a text that ends in a bare CR, an offset at or past the end).",
         "not_decided": ["the main clause: no panic / stack overflow across build, validate, serialize, introspect, render for every input text",
                         "RecursionGuard (IndexSet + ahash: not executable under Kani without stubbing getrandom)", "diagnostics sorted by position (std sort_by_key)"],
     },
